@@ -17,7 +17,7 @@ Reset == /\ l <= Len(Trace) /\ Trace[l].ev = "reset"
 \* the predicate of PairSetup.tla
 StoreRuleP(st, st2, m, prv) ==
   IF st2 # st
-  THEN m.t = "Kex" /\ m.seal = "this" /\ m.body = "genuine" /\ m.shape = "ok" /\ prv /\ st2 = st \cup {m.id}
+  THEN m.t = "Kex" /\ m.seal = "this" /\ m.body \in {"genuine", "smallorder"} /\ m.shape = "ok" /\ prv /\ st2 = st \cup {m.id}
   ELSE TRUE
 
 AcceptedStart(e) == e.m.t = "Start" /\ e.http = 200 /\ e.state = 2 /\ e.err = 0
